@@ -219,8 +219,18 @@ where
                 }
                 b
             }),
+            Call::PartsQualOrInsert(k, v) => guard("entry.or_insert", || {
+                if let Ok(e) = b.parts.qualifiers.entry(k.as_str()) {
+                    if v.len() % 2 == 0 {
+                        e.or_insert(v.as_str());
+                    } else {
+                        e.or_insert_with(|| SmallString::from(v.as_str()));
+                    }
+                }
+                b
+            }),
             Call::PartsQualsFromIter(pairs) => guard("Qualifiers::try_from_iter", || {
-                if let Ok(q) = purl::Qualifiers::try_from_iter(pairs.iter().map(|(k, v)| (k.as_str(), v.as_str()))) {
+                if let Ok(q) = purl::Qualifiers::try_from_iter(crate::mon::c11::Hinted::new(pairs.iter().map(|(k, v)| (k.as_str(), v.as_str())), pairs)) {
                     b.parts.qualifiers = q;
                 }
                 b
